@@ -28,6 +28,9 @@ CLAIMED = {
  "C05": ("conserve", "FILL definite-assignment rule (incl. the two-pointer idiom, total iff l <= r), FMAP conservation rule", "DESIGN.md 4/C05",
          "Static decision of 'no part of a multi-part location is lost' as definite assignment of the reversed slice in Joined/Ordered.Reverse, Regions.Complement/Locate and the Region() builders (FILL, 7 sites), and that Reverse, Complement and Concat conserve every feature (FMAP). Does not decide the mirroring arithmetic.",
          "Same trusted base as C02; the involution of the complement alphabet is decided under C18."),
+ "C07": ("traps", "trap-site obligations over the SSA-reachable parser code: the Go compiler's bounds-check-elimination report as the first discharge, then guard facts from the enclosing/preceding syntax, index-search post-conditions, an interprocedural non-negativity analysis, go/cfg typestate for the Request/Advance protocol, error-handling idioms, and a reviewed table keyed by (function, kind, operand role) with site counts", "DESIGN.md 4/C07",
+         "Static decision of panic-freedom of everything reachable from the parser entry points (145 functions) with respect to the input-dependent trap kinds: index and slice bounds the compiler cannot prove (IDX), negative counts into Repeat/make/Request (NN), an unchecked Request (REQ-ERR), Advance without a pending Request (REQ-ADV), reading a parse result without testing its error (RES), MustCompile/division by input (MUSTC). Does not decide termination or that inconsistent records are rejected.",
+         "Trusts the compiler's prove pass, the documented post-conditions of IndexByte/Index and of (*pars.State).Request; 18 reviewed table rows (layout and shape arguments) each with a one-line reason and a fixed count; explicit panic statements are developer assertions."),
  "C09": ("orders", "abstract interpretation over the finite domain of order types (total preorders of the endpoints) of comparison-only code, including loops, slices and sorting with concrete indices", "DESIGN.md 4/C09",
          "Static decision of the partition property itself for every input with up to 3 segments: Minimize, InvertLinear and InvertCircular are evaluated by an abstract interpreter over order types (coordinates are symbolic atoms ranked by a total preorder; the code may only compare, copy and store them), once per ordering of the endpoints with 0 and n (18 948 orderings, flat, bare and nested region shapes), against the partition oracle; plus BySegment.Less is a strict weak order and Min/Max/Compare are correct (all 4683 / 3 orderings). Exact for all coordinate values; bounded in the number of segments.",
          "Exact because the functions touch coordinates only through comparisons, copies and stores (any arithmetic on a coordinate aborts the evaluation as undecided); sort.Sort is modelled as an insertion sort through the interpreted Less/Swap, which is what any correct sort yields for a strict weak order; bounded to 3 segments."),
